@@ -478,7 +478,8 @@ func (vc *VC) matchCallHints(name string, ord int) []*CallHint {
 	}
 	var out []*CallHint
 	for _, h := range vc.fc.Calls {
-		if !strings.HasSuffix(name, h.Callee) && !strings.Contains(name, h.Callee) {
+		// the callee is named by its last component(s): "Write" is io.Writer.Write, not io.WriteString
+		if name != h.Callee && !strings.HasSuffix(name, "."+h.Callee) {
 			continue
 		}
 		if h.N != 0 && h.N != ord {
